@@ -15,7 +15,7 @@ use std::panic::{catch_unwind, AssertUnwindSafe};
 use toodee::{TooDee, TooDeeOps};
 
 /// Lists longer than this are printed as `big`.
-pub const BIG: usize = 4096;
+pub const BIG: usize = 131072;
 
 const NO_CASE: &str = "bad-op | 0 0 0 - | - 0 0";
 
